@@ -33,7 +33,7 @@ T = {
  "C08": ("secret-taint monitor: valgrind memcheck with key/tweak/counter/data marked undefined (and clang MSan poison), positive controls; lackey instruction/address trace equality across secrets",
          "Exploration over the public-parameter grid (variant, key length, rounds, mode, entry point, sizes, back end): any branch or address computed from a secret on an executed path is reported.",
          "Trusted: memcheck/MSan definedness propagation; microarchitectural timing is out of reach; only builds possible on this host.", "3/C08"),
- "C09": ("guard-page (PROT_NONE) exact-extent buffers + canaries on the shipped and clang builds, ASan manual poisoning, memcheck NOACCESS; result equality across alignments, overlaps, adjacent buffers and buffers an exact multiple of 4 GiB apart",
+ "C09": ("guard-page (PROT_NONE) exact-extent buffers + canaries on the shipped and clang builds, read-only (PROT_READ) input pages, ASan manual poisoning, memcheck NOACCESS (sample in quick); result equality across alignments, overlaps, adjacent buffers and buffers an exact multiple of 4 GiB apart",
          "Exploration: every pointer argument of every public function at misalignments 0..63, back- and front-guarded, all lengths up to 2 batches+17, overlap offsets, in-place bulk calls, every back end.",
          "Page-granular guards catch overruns beyond the alignment slack; byte-exact detection relies on ASan/memcheck variants.", "3/C09"),
  "C10": ("exhaustive key-length sweep monitor: accept/reject oracle, zero-padding equivalence vs padded key and reference model, schedule-untouched and stream-undisturbed checks (twin objects), stack painting; the same sweep through the three tools",
@@ -42,7 +42,7 @@ T = {
  "C11": ("definedness monitor at the API boundary (MSan shadow tests, memcheck CHECK_MEM_IS_DEFINED) + cross-process differential with painted stack/perturbed heap/optimisation levels",
          "Exploration over API histories with all inputs defined: every output byte, return value and documented schedule field must be defined and identical across processes that differ only in stack/heap contents and optimisation.",
          "Trusted: MSan/memcheck shadow state.", "3/C11"),
- "C12": ("configuration-matrix differential: the working tree built in many switch/compiler/optimisation/flag combinations (-O0..-O3, -Os, -Og, -march=native, -DNDEBUG, -funsigned-char), transcripts compared with the shipped build and the models",
+ "C12": ("configuration-matrix differential: the working tree built in many switch/compiler/optimisation/flag combinations (-O0..-O3, -Os, -Og, -march=native, -DNDEBUG, -funsigned-char, -flto, and the library as src/Makefile builds it), transcripts compared with the shipped build and the models",
          "Exploration over build configurations (12 quick / 128 thorough) x a fixed seeded workload covering C01-C07 operations.",
          "No real 32-bit/big-endian target: alternative source paths run on the host via the switch hook.", "3/C12"),
  "C13": ("CPUID trap monitor (arch_prctl ARCH_SET_CPUID): logs every CPUID (leaf, sub-leaf register) during init, serves emulated CPU models, injects register/stack garbage; XGETBV emulated, and VEX/EVEX, post-SSE2 (on an SSE2-only model) and XGETBV-without-OSXSAVE instructions watched, by single-stepping (EFLAGS.TF); selected back end read from the handle",
@@ -51,13 +51,13 @@ T = {
  "C14": ("twin-history monitor: history with invalid calls vs the same history without them on the same back end; guard buffers, crash containment; failed-init objects produced by allocation-fault injection",
          "Exploration over histories x invalid-argument classes x object states for CTR, parallel-ECB and key-schedule functions.",
          "'Unchanged' is the property's own definition: identical later results.", "3/C14"),
- "C15": ("allocator event-log monitor (link-time --wrap of the malloc family and of mmap/munmap) with conservation/exactly-once checker, PROT_NONE quarantine of freed blocks, weakly aligned (8-byte) allocator mode with slack fill-pattern check, inert-handle cleanup on a PROT_READ copy, ASan",
+ "C15": ("allocator event-log monitor (link-time --wrap of the malloc family and of mmap/munmap) with conservation/exactly-once checker, PROT_NONE quarantine of freed blocks, weakly aligned (8-byte) allocator mode with slack fill-pattern check, moved control blocks, 70 000 objects alive on the real allocator (heap balance), a process where mlock fails, inert-handle cleanup on a PROT_READ copy, ASan",
          "Exploration over life-cycle histories on several objects of each kind and back end.",
          "Allocator wrapped at link time; only calls made while a library call is in progress are attributed.", "3/C15"),
  "C16": ("fault injection: N-th allocation request failed through the allocator monitor, enumerated over init functions x back ends x prior handle contents (also in cold, freshly forked processes and on alternative compile-time paths), then a battery of later calls",
          "Fault enumeration: every allocation point of every init function on every back end with six prior-content classes of the caller's handle.",
          "Allocation points discovered by a dry run of the monitor.", "3/C16"),
- "C17": ("monitor at free() and munmap(): every block the library releases is scanned for non-zero bytes before release, on -O3 gcc and clang builds, also in a process where mlock fails (seccomp) and with 220 objects alive",
+ "C17": ("monitor at free() and munmap(): every block the library releases is scanned for non-zero bytes before release, on -O3 gcc and clang builds, also in a process where mlock fails (seccomp), with 220 objects alive, on LTO and clang builds",
          "Exploration over histories ending in cleanup for every object kind and back end with all fields non-zero beforehand (non-vacuity measured).",
          "Block sizes known from the matching allocation event.", "3/C17"),
  "C18": ("ThreadSanitizer (gcc and clang) and helgrind over 16-thread workloads (incl. first-ever calls made concurrently, key-setup storms, persistent workers across re-keying phases, 64 KiB+ requests; a -fno-builtin TSan build) + process-state snapshots (signal dispositions, mask, FP control) + sequential-equivalence oracle + mprotect(PROT_READ) of shared parallel-ECB state during read-only calls, positive control race",
